@@ -254,7 +254,9 @@ def corpus_cases(entries):
         if not os.path.exists(p):
             continue
         c = {"id": "corpus|" + e["key"] + "|" + e["entry"], "entry": e["entry"], "sigtype": e["sigtype"], "name": e["name"], "base": p,
-             "family": "corpus", "mut": "corpus:" + e["key"], "expect": e["key"]}
+             "family": "corpus", "mut": "corpus:" + e["key"]}
+        if e.get("status") == "finding":      # recorded findings must keep reproducing under their key (else: fixed or moved, noted)
+            c["expect"] = e["key"]
         for k in ("content", "query"):
             if e.get(k):
                 c[k] = e[k].replace("$PKGS", PKGS)
@@ -263,7 +265,7 @@ def corpus_cases(entries):
 
 
 # ------------------------------------------------------------------------------------------------- proof half
-PARSERS = ["binpatch_load", "zip_cd", "apk_signers", "apk_signed_data", "apk_v2", "xap_trailer", "csblob_super"]
+PARSERS = ["binpatch_load", "zip_cd", "apk_signers", "apk_signed_data", "apk_v2", "xap_trailer", "csblob_super", "apk_digest_loop"]
 
 
 def proof_half(ctx, st, cov):
@@ -304,6 +306,10 @@ def proof_half(ctx, st, cov):
         # does the disagreement violate the property?  Only if the real code panicked where the model says it would not,
         # and that panic is not one of the keyed defects (those are reported by the crash harness with their own keys).
         real_panics = [x for x, _ in mism if x["class"] == "panic"]
+        for x in real_panics[:3]:
+            # the real parser panics where the (proved panic-free) model does not: a concrete failing input of the property
+            ctx.violation("C11:%s:panics" % x["parser"], "the real code panics (%s) on an input on which the model returns normally; input kind %s, args %s" %
+                          (x.get("detail"), x.get("kind"), x.get("args")), {"cases": [x]}, True)
         ctx.violation("C11:correspondence:" + c["parser"], "model and real parser disagree on %d inputs (first: parser=%s kind=%s class real=%s/%s model=%s/%s vals real=%s model=%s)" %
                       (len(mism), c["parser"], c.get("kind"), c["class"], c.get("errc"), r[0], r[3], c.get("vals"), r[1]), {"cases": [x for x, _ in mism[:5]], "broken": "correspondence C11.Run.run"},
                       bool(real_panics) and False)
@@ -365,7 +371,8 @@ def run(ctx, replay=None):
             mem_max = max(mem_max, r.get("sys", 0))
         if r["class"] in BAD:
             by_key.setdefault(r["key"], []).append(r)
-    # corpus entries must keep reproducing under their key (otherwise the defect was fixed or moved: tell the operator)
+    # corpus entries of FIXED defects are plain regression inputs: any crash on them is reported like any other crash.
+    # corpus entries of recorded findings must keep reproducing under their key (otherwise the defect was fixed or moved: tell the operator)
     stale = []
     for r in results:
         exp = r.get("expect")
@@ -452,6 +459,7 @@ ENTRY_THEOREMS = {
     "apk.unmarshal / unmarshalR (any target type)": "C11.Properties.unmarshal_no_panic",
     "apk.getSigBlock + pair loop of apk.verify + signer list parse": "C11.Properties.apk_v2_parse_no_panic",
     "zipslicer.ReadWithDirectory (entry loop, end records)": "C11.Properties.zip_directory_no_panic, zip_entries_fuel",
+    "apkSigner.Verify digest comparison loop": "C11.Properties.verify_digests_no_panic",
     "authenticode.DigestPowershell": "FmtPS.Properties.ps_hashin_no_panic (built and counted by the FMTPS unit, also part of C01/C02/C03/C05/C08)",
     "authenticode.VerifyPowershell (up to the PKCS#7 parser)": "FmtPS.Properties.ps_extract_no_panic",
 }
